@@ -243,6 +243,51 @@ def copy_tree(t):
     return ('e', t[1], t[2], t[3], list(t[4]), [copy_tree(k) for k in t[5]])
 
 
+def degenerate_sweep(chk, rng, raised):
+    """Trees at the small end: a document object with NO element at all (empty input, text only, comment / doctype / PI only,
+    all children extracted), a document whose only element is empty, a detached element without children, a document
+    object emptied after parsing — every entry point, called on the document object and (where there is one) on the element."""
+    import bs4
+    import soupsieve as sv
+    docs = []
+    for parser in ('html.parser', 'lxml', 'html5lib', 'xml'):
+        for markup in ('', ' ', 'just text', '<!-- only a comment -->', '<!DOCTYPE html>', '<?pi x?>', '<!DOCTYPE html><!-- c -->text'):
+            try:
+                docs.append((f'{parser}:{markup!r}', bs4.BeautifulSoup(markup, parser)))
+            except Exception:       # noqa: BLE001  (a parser may refuse the input; that is not the library under test)
+                pass
+    for parser in ('html.parser', 'xml'):
+        d = bs4.BeautifulSoup('<a><b>t</b></a>', parser)
+        for c in list(d.contents):
+            c.extract()
+        docs.append((f'{parser}:emptied', d))
+        d2 = bs4.BeautifulSoup('<a></a>', parser)
+        docs.append((f'{parser}:<a/>', d2))
+        e = bs4.BeautifulSoup('<a><b></b></a>', parser).b.extract()
+        docs.append((f'{parser}:detached <b/>', e))
+    sels = ALL_PSEUDO + ['*', 'p', 'a b', ':root > *', ':not(*)', ':has(*)', '* ~ *', ':is(a, b):empty']
+    calls = 0
+    for label, top in docs:
+        targets = [top] + [t for t in top.find_all(True)][:2]
+        for sel in (sels if chk.tier != 'quick' else rng.sample(sels, 14) + ['*', ':root', ':scope', ':lang(en)', ':dir(ltr)', ':first-child']):
+            for tgt in targets:
+                for what, fn in (('select', lambda: sv.select(sel, tgt)), ('select_one', lambda: sv.select_one(sel, tgt)),
+                                 ('iselect', lambda: list(sv.iselect(sel, tgt))), ('match', lambda: sv.match(sel, tgt)),
+                                 ('closest', lambda: sv.closest(sel, tgt)), ('filter', lambda: sv.filter(sel, tgt)),
+                                 ('Tag.select', lambda: tgt.select(sel)), ('Tag.select_one', lambda: tgt.select_one(sel))):
+                    calls += 1
+                    try:
+                        fn()
+                    except Exception as e:      # noqa: BLE001
+                        raised.append({'what': f'{what} raised {type(e).__name__} on a degenerate tree', 'selector': sel,
+                                       'degenerate_document': label, 'target_is_document': tgt is top,
+                                       'exception': f'{type(e).__name__}: {e}'[:200]})
+                        break
+    chk.coverage['degenerate_documents'] = len(docs)
+    chk.coverage['degenerate_calls'] = calls
+    return calls
+
+
 DEEP_SHAPES = [
     ('<div>', '</div>', '<span id="leaf" dir="auto">x</span>', ''),
     ('<b>', '</b>', '\u05d0\u05d1<i id="leaf"></i>', ' dir="auto"'),
@@ -362,6 +407,7 @@ def run(chk):
                     pass
                 except Exception as e:
                     raised.append({'what': f'{fn.__name__}({badt!r}) raised {type(e).__name__} instead of TypeError'})
+    evaluations += degenerate_sweep(chk, random.Random(chk.seed * 17 + 8), raised)
     evaluations += deep_sweep(chk, random.Random(chk.seed * 31 + 8), raised)
     sweep_calls = odd_state_sweep(chk, random.Random(chk.seed * 7919 + 8), raised)
     evaluations += sweep_calls
@@ -397,6 +443,33 @@ def dec_val(v):
 
 def replay(chk, path):
     data = json.load(open(path))
+    if 'degenerate_document' in data:
+        import bs4
+        import soupsieve as sv
+        parser, _, rest = data['degenerate_document'].partition(':')
+        if rest == 'emptied':
+            top = bs4.BeautifulSoup('<a><b>t</b></a>', parser)
+            for c in list(top.contents):
+                c.extract()
+        elif rest == '<a/>':
+            top = bs4.BeautifulSoup('<a></a>', parser)
+        elif rest.startswith('detached'):
+            top = bs4.BeautifulSoup('<a><b></b></a>', parser).b.extract()
+        else:
+            import ast
+            top = bs4.BeautifulSoup(ast.literal_eval(rest), parser)
+        sel = data['selector']
+        for tgt in [top] + top.find_all(True)[:2]:
+            for fn in (lambda: sv.select(sel, tgt), lambda: sv.select_one(sel, tgt), lambda: list(sv.iselect(sel, tgt)), lambda: sv.match(sel, tgt),
+                       lambda: sv.closest(sel, tgt), lambda: sv.filter(sel, tgt), lambda: tgt.select(sel), lambda: tgt.select_one(sel)):
+                try:
+                    fn()
+                except Exception as e:      # noqa: BLE001
+                    print(json.dumps({'exception': f'{type(e).__name__}: {e}'[:200]}))
+                    print(f'VIOLATION property={PID} replay={path}')
+                    return 1
+        print(json.dumps({'exception': None}))
+        return 0
     if 'deep_shape' in data:
         import soupsieve as sv
         soup = deep_doc(data['deep_shape'], data['depth'])
